@@ -146,6 +146,10 @@ func (p *NegotiationParams) UnmarshalKeyValues(keyvals map[string]string) error 
 }
 
 func (p *NegotiationParams) MarshalKeyValues() (map[string]string, error) {
+	// encoding/json would replace invalid bytes by U+FFFD, i.e. send a different id without saying so
+	if !utf8.ValidString(string(p.TransportID)) || !utf8.ValidString(string(p.TransportGroupID)) {
+		return nil, errors.Errorf("transport id or transport group id is not valid UTF-8: %q %q", string(p.TransportID), string(p.TransportGroupID))
+	}
 	b, err := json.Marshal(p)
 	if err != nil {
 		return nil, err
